@@ -302,6 +302,7 @@ struct UnitCtx {
 	std::unordered_set<uint64_t> outputs;		// hashes of distinct cleaned outputs
 	bool count_nontrivial = true;
 	int samples = 0;
+	long long dumped = 0;
 };
 
 static std::string esc(const std::string& s, size_t maxn = 60) {
@@ -330,12 +331,13 @@ static J case_json(const std::string& p, const Ver& v, bool terrain, int g, int 
 		for (size_t i = 0; i < per && i < p.size(); i++) u.push(J((int) (unsigned char) p[i]));
 		c.set("path_period", u).set("path_length", (long long) p.size());
 	}
-	c.set("path_text", esc(p, 80)).set("version", v.name).set("terrain", terrain).set("kind", GROUP_NAME[g]).set("slot", slot_name(g, slot));
+	c.set("path_text", p.size() > 80 ? p.substr(0, 80) + vf::strf("...(%zu bytes)", p.size()) : p).set("version", v.name).set("terrain", terrain).set("kind", GROUP_NAME[g]).set("slot", slot_name(g, slot));
 	return c;
 }
 
 static void report(UnitCtx& u, const std::string& key, const std::string& msg, const std::string& p, const Ver& v, bool terrain, int g, int slot) {
 	u.st->add("fail_" + key);
+	if (A.has("dumpkey") && A.get("dumpkey") == key && u.dumped++ < A.geti("dumpmax", 40)) u.st->note("dump " + key + ": " + msg); // debugging aid
 	Found& f = u.found[key];
 	if (f.count++ == 0 || p.size() < f.plen) {
 		f.plen = p.size();
@@ -406,9 +408,9 @@ static void judge(UnitCtx& u, const std::string& p, const Ver& v, bool terrain, 
 				report(u, key, ctx + "a file carrying " + esc(p) + " loads as " + esc(ql) + " but the explicit clean-up gives " + esc(q1), p, v, terrain, g, s);
 			}
 		}
-		if (u.samples < 2 && q1 != p && p.size() >= 3) {
+		if (u.samples < 1 && q1 != p && p.size() >= 3 && p.size() <= 64 && (vf::fnv(p) % 97) == 0) { // a thin deterministic slice of the cases as literal samples
 			u.samples++;
-			st.sample(case_json(p, v, terrain, g, s).set("cleaned", esc(q1)).set("cleaned_twice", esc(q2)));
+			st.sample(case_json(p, v, terrain, g, s).set("cleaned", q1.substr(0, 80)).set("cleaned_twice", q2.substr(0, 80)));
 		}
 	}
 }
@@ -553,7 +555,7 @@ int main(int argc, char** argv) {
 	g_kindlen = (int) A.geti("kindlen", thorough ? 4 : 3);
 	if (g_kindlen > g_maxlen) g_kindlen = g_maxlen;
 	const uint64_t chunk = (uint64_t) A.geti("chunk", 1000);
-	const uint64_t kchunk = (uint64_t) A.geti("kchunk", 100);
+	const uint64_t kchunk = (uint64_t) A.geti("kchunk", 20);
 	// optional reduced alphabet for the longest length: "--lastalpha 0,1,2,5,6" (token indices)
 	if (A.has("lastalpha")) {
 		std::string s = A.get("lastalpha");
@@ -628,7 +630,7 @@ int main(int argc, char** argv) {
 	if (with_long) {
 		// members longer than 64 bytes: texture-set slots only, small batches (regex time grows with the length)
 		for (uint64_t a = 510; a < LF.size(); a += 6) units.push_back({'L', a, std::min<uint64_t>(a + 6, LF.size()), false});
-		for (uint64_t a = 0; a < 510; a += 85) units.push_back({'L', a, std::min<uint64_t>(a + 85, 510), true});
+		for (uint64_t a = 0; a < 510; a += 15) units.push_back({'L', a, std::min<uint64_t>(a + 15, 510), true});
 	}
 	for (uint64_t a = 0; a < KS.total(); a += kchunk) units.push_back({'K', a, std::min(a + kchunk, KS.total()), true});
 	// longest strings first (they cost most), so the tail of the run is made of cheap units
